@@ -65,3 +65,10 @@ Inductive sniff_guard := SgNotInternal | SgNone | SgUnknown (text : string).
 Record sniff_site := mk_sniff_site { ss_file : string; ss_func : string; ss_guard : sniff_guard; ss_force : force_expr }.
 (* a call svr.HandleListener(<listener>, <internal>) *)
 Record listener_call := mk_listener_call { lc_listener : string; lc_internal : string }.
+
+(* the *tls.Config a listener construction site / the sniff receives (server/service.go) *)
+Inductive tlscfg_expr :=
+| TcOrigin                          (* the object returned by transport.NewServerTLSConfig(cfg.Transport.TLS.{CertFile,KeyFile,TrustedCaFile}) *)
+| TcClone (assigned : list string)  (* <origin>.Clone() with exactly these fields assigned afterwards *)
+| TcUnknown (text : string).        (* anything else, e.g. a fresh &tls.Config{...} literal *)
+Record tls_use := mk_tls_use { tu_file : string; tu_func : string; tu_consumer : string; tu_cfg : tlscfg_expr }.
